@@ -1,5 +1,6 @@
 """C04 -- nothing schema-invalid is sent unless validation was explicitly skipped."""
 import json
+import os
 
 from harness import common as C
 from harness import gen_dispatch as GD
@@ -47,6 +48,7 @@ def body_factory(tier, seed):
                                    "built_to_violate": tags})
             return
         V.run_correspondence(rep, rows, "C04", PROP)
+        cold_orders(rep)
         # through the real endpoints: invalid handler results become CALLERRORs, invalid requests are not written
         g = GD.Gen(tier, seed)
         dcases = [c for c in g.stratum_handled("all" if tier == "thorough" else 10) if c[0] in ("ok", "bad-res", "skip")]
@@ -65,6 +67,62 @@ def body_factory(tier, seed):
     return body
 
 
+COLD = r"""
+import json, sys
+sys.path.insert(0, sys.argv[1])
+from ocpp.messages import Call, CallResult, _validate_payload
+from ocpp.exceptions import OCPPError
+def v(mtype, action, payload):
+    msg = Call("i", action, payload) if mtype == "Call" else CallResult("i", payload, action)
+    try:
+        _validate_payload(msg, "1.6")
+        return "accept"
+    except OCPPError as e:
+        return "reject:" + type(e).__name__
+    except Exception as e:
+        return "crash:" + type(e).__name__
+print(json.dumps([v(*x) for x in json.loads(sys.argv[2])]))
+"""
+
+
+def cold_orders(rep):
+    """'every payload that satisfies the schema is written' must not depend on what the process validated before:
+    for the three decimal-validated 1.6 messages, in a FRESH interpreter each, an integer-only payload, a payload
+    with a one-decimal float, one with two decimals -- in both orders of the first two"""
+    import subprocess
+    from harness.props import c14
+    seen = set()
+    for (mtype, action, path) in c14.POSITIONS:
+        if (mtype, action) in seen:
+            continue
+        seen.add((mtype, action))
+        base = c14.base_payload(mtype, action)
+        # every multipleOf position of the message gets the value
+        def with_value(x):
+            p = base
+            for (mt, a, pth) in c14.POSITIONS:
+                if (mt, a) == (mtype, action):
+                    p = c14.set_at(p, pth, x)
+            return p
+        ints, tenth, hundredth = with_value(16), with_value(21.4), with_value(21.45)
+        for order, seq, want in (("int-first", [ints, tenth, hundredth, ints], ["accept", "accept", "reject:FormatViolationError", "accept"]),
+                                 ("float-first", [tenth, ints, hundredth, tenth], ["accept", "accept", "reject:FormatViolationError", "accept"])):
+            arg = json.dumps([[mtype, action, p] for p in seq])
+            pr = subprocess.run([C.PY, "-c", COLD, C.REPO, arg], capture_output=True, text=True, timeout=120,
+                                env=dict(os.environ, PYTHONHASHSEED="0", PYTHONPATH=C.REPO))
+            rep.count("cold:%s:%s:%s" % (mtype, action, order))
+            try:
+                got = json.loads(pr.stdout.strip().splitlines()[-1])
+            except (ValueError, IndexError):
+                got = ["no output: " + pr.stderr[-200:]]
+            if got != want:
+                rep.violation("C04:cold-order:%s:%s:%s" % (mtype, action, order),
+                              "fresh interpreter, 1.6 %s %s, payloads validated in the order %s: verdicts %r, expected %r" % (
+                                  mtype, action, order, got, want),
+                              {"kind": "cold-order", "mtype": mtype, "action": action, "order": order, "payloads": seq,
+                               "verdicts": got, "expected": want})
+
+
 def run(rep, tier, seed):
     return C.standard_run(rep, PROP, ["Model/CaseVerdict.vo", "Model/CaseDispatch.vo", "Model/CaseHistory.vo"],
                           [body_factory(tier, seed + 1000 * i) for i in range(3 if tier == "thorough" else 1)], rule=(
@@ -76,6 +134,15 @@ def run(rep, tier, seed):
 
 
 def replay(d):
+    if d.get("kind") == "cold-order":
+        import subprocess
+        arg = json.dumps([[d["mtype"], d["action"], p] for p in d["payloads"]])
+        pr = subprocess.run([C.PY, "-c", COLD, C.REPO, arg], capture_output=True, text=True, timeout=120,
+                            env=dict(os.environ, PYTHONHASHSEED="0", PYTHONPATH=C.REPO))
+        got = json.loads(pr.stdout.strip().splitlines()[-1]) if pr.stdout.strip() else [pr.stderr[-200:]]
+        print("verdicts in a fresh interpreter:", got, "expected:", d["expected"])
+        print("HOLDS" if got == d["expected"] else "FAILS")
+        return 0 if got == d["expected"] else 1
     if d.get("kind") in ("verdict", "correspondence") and "payload" in d:
         v = V.impl_verdict(d["version"], d["mtype"], d["action"], d["payload"])
         tags = d.get("built_to_violate")
